@@ -61,9 +61,9 @@ Section R.
 End R.
 
 
-(* ---- CL03 entry points: suite selector 0 = toy, 4 = toy2, 5 = micro (harness), 1..3 = the shipped suites ---- *)
+(* ---- CL03 entry points: suite selector 0 = toy, 4 = toy2, 5 = micro, 6 = toy3 (harness), 1..3 = the shipped suites ---- *)
 Definition cl_suite (k : N) : clsuite :=
-  match k with 0%N => toy_suite | 1%N => cl1024_suite | 2%N => cl2048_suite | 4%N => toy2_suite | 5%N => micro_suite | _ => cl3072_suite end.
+  match k with 0%N => toy_suite | 1%N => cl1024_suite | 2%N => cl2048_suite | 4%N => toy2_suite | 5%N => micro_suite | 6%N => toy3_suite | _ => cl3072_suite end.
 Definition c_params k := o_params (cl_suite k).
 Definition c_map (m : bytes) := o_map m.
 Definition c_keygen k := o_keygen (cl_suite k).
